@@ -348,6 +348,10 @@ def gen_case(r: random.Random) -> Dict[str, Any]:
     if frame == "map":
         objs_gt = [O.to_map(o, *ego) for o in objs_gt]
         objs_est = [O.to_map(o, *ego) for o in objs_est]
+        if r.random() < 0.15:
+            # map coordinates given as whole numbers (Python ints): numbers like any other
+            for o in objs_gt + objs_est:
+                o.state.position = tuple(int(round(float(v))) for v in o.state.position)
     if with_tr:
         p["transforms"] = O.transforms_for(*ego)
         if frame != "map" and r.random() < 0.35:
